@@ -371,7 +371,14 @@ func runCase(seed uint64, name, profile string, nops int, memq int64) lib.Case {
 	opts.QueueScanInterval = time.Hour // timeouts are driven by the harness (VerifScan)
 	opts.QueueScanRefreshInterval = time.Hour
 	opts.SyncEvery = 1
-	cr := &caseRun{r: r, profile: profile, memq: memq, dir: dir, opts: opts,
+	topo := r.Chance(30)
+	if topo {
+		// topology-aware consumption: zone-local / region-local hand-off channels in Channel.put
+		opts.Experiments = []string{"topology-aware-consumption"}
+		opts.TopologyRegion = "r1"
+		opts.TopologyZone = "z1"
+	}
+	cr := &caseRun{topo: topo, r: r, profile: profile, memq: memq, dir: dir, opts: opts,
 		clients: map[int]*shClient{}, topics: map[int]bool{}, chans: map[[2]int]bool{},
 		tpaused: map[int]bool{}, cpaused: map[[2]int]bool{}, tags: map[string]int{},
 		hadClient: map[[2]int]bool{}, hadChan: map[int]bool{}}
@@ -400,7 +407,7 @@ func runCase(seed uint64, name, profile string, nops int, memq int64) lib.Case {
 	cr.d.Exit()
 	cr.recordMeta()
 	os.RemoveAll(opts.DataPath)
-	tags := []string{"profile=" + profile, fmt.Sprintf("memq=%d", memq)}
+	tags := []string{"profile=" + profile, fmt.Sprintf("memq=%d", memq), fmt.Sprintf("topology-aware=%v", topo)}
 	for k, v := range cr.tags {
 		tags = append(tags, fmt.Sprintf("%s×%d", k, v))
 	}
@@ -419,6 +426,7 @@ type replayIn struct {
 	Nops    int    `json:"nops"`
 	Memq    int64  `json:"memq"`
 	Name    string `json:"name"`
+	Fine    string `json:"fine"`
 }
 
 func main() {
@@ -426,6 +434,7 @@ func main() {
 	nops := flag.Int("ops", 35, "operations per case")
 	seed := flag.Uint64("seed", 1, "seed")
 	profile := flag.String("profile", "c13", "profile")
+	nofine := flag.Bool("nofine", false, "skip the forced-interleaving scenarios")
 	out := flag.String("out", "", "output")
 	replay := flag.String("replay", "", "replay file")
 	par := flag.Int("par", 6, "parallel cases")
@@ -442,6 +451,23 @@ func main() {
 			ins = append(ins, replayIn{Seed: r.U64(), Profile: *profile, Nops: *nops, Memq: memqs[i%len(memqs)], Name: fmt.Sprintf("%s-%d-%d", *profile, *seed, i)})
 		}
 	}
+	var fine []replayIn
+	if *replay != "" {
+		var keep []replayIn
+		for _, in := range ins {
+			if in.Fine != "" {
+				fine = append(fine, in)
+			} else {
+				keep = append(keep, in)
+			}
+		}
+		ins = keep
+	} else if !*nofine {
+		r := lib.NewRand(*seed + 77)
+		for _, sc := range fineByProfile[*profile] {
+			fine = append(fine, replayIn{Seed: r.U64(), Fine: sc})
+		}
+	}
 	res := make([]lib.Case, len(ins))
 	sem := make(chan struct{}, *par)
 	var wg sync.WaitGroup
@@ -455,6 +481,14 @@ func main() {
 		}(i)
 	}
 	wg.Wait()
+	// forced interleavings: one at a time (verifPoint actions are process-global)
+	emitted := map[string]bool{}
+	for _, in := range fine {
+		if f, ok := fineScenarios[in.Fine]; ok && !emitted[fmt.Sprintf("%s/%d", in.Fine, in.Seed)] {
+			emitted[fmt.Sprintf("%s/%d", in.Fine, in.Seed)] = true
+			res = append(res, f(in.Seed)...)
+		}
+	}
 	unsettled := 0
 	for _, c := range res {
 		o.Emit(c)
